@@ -4,6 +4,8 @@
 package main
 
 import (
+	"os"
+	"strconv"
 	"fmt"
 	"net/url"
 	"regexp"
@@ -150,8 +152,9 @@ func (g *vGateWorld) applyGateCred(q *vReq, cred map[string]interface{}) {
 	}
 }
 
-func (g *vGateWorld) probe(c map[string]interface{}) map[string]interface{} {
+func (g *vGateWorld) probe(c map[string]interface{}, idx int) map[string]interface{} {
 	w := g.w
+	xvar := ""
 	g.reset()
 	op := vStr(c, "op")
 	cred := vMap(c, "cred")
@@ -244,8 +247,28 @@ func (g *vGateWorld) probe(c map[string]interface{}) map[string]interface{} {
 	case "same":
 		q.Headers["Origin"] = "https://" + vHost
 	case "cross":
-		q.Headers["Origin"] = "https://evil.example.net"
-		q.Headers["Referer"] = "https://evil.example.net/page"
+		// every one of these is another site; which one a probe uses rotates with the probe index and the seed
+		xvar = vCrossVariants[(idx+vGateSeed())%len(vCrossVariants)]
+		if v := vStr(c, "xvar"); v != "" { // re-run of a deviating probe: the same variant
+			xvar = v
+		}
+		switch xvar {
+		case "foreign":
+			q.Headers["Origin"] = "https://evil.example.net"
+			q.Headers["Referer"] = "https://evil.example.net/page"
+		case "lookalike_suffix":
+			q.Headers["Origin"] = "https://" + vHost + ".evil.example.net"
+		case "lookalike_prefix":
+			q.Headers["Origin"] = "https://evil-" + vHost
+		case "lookalike_dash":
+			q.Headers["Origin"] = "https://" + vHost + "-login.example.net"
+		case "referer_only":
+			q.Headers["Referer"] = "https://evil.example.net/attack?x=https://" + vHost + "/"
+		case "referer_lookalike":
+			q.Headers["Referer"] = "https://" + vHost + ".evil.example.net/page"
+		case "userinfo":
+			q.Headers["Origin"] = "https://" + vHost + "@evil.example.net"
+		}
 	}
 	g.applyGateCred(&q, cred)
 	dbBefore, txBefore := w.dbDigest(), g.txState()
@@ -286,7 +309,18 @@ func (g *vGateWorld) probe(c map[string]interface{}) map[string]interface{} {
 	if id == "" || id == "-" {
 		id = "none"
 	}
-	return map[string]interface{}{"effects": el, "identity": id, "panic": r.Panic != "", "class": r.Class(), "status": r.Status}
+	return map[string]interface{}{"effects": el, "identity": id, "panic": r.Panic != "", "class": r.Class(), "status": r.Status, "xvar": xvar}
+}
+
+// the ways a request can come from another site (C06: all of them must be refused state changes)
+var vCrossVariants = []string{"foreign", "lookalike_suffix", "lookalike_prefix", "lookalike_dash", "referer_only", "referer_lookalike", "userinfo"}
+
+func vGateSeed() int {
+	n, _ := strconv.Atoi(os.Getenv("VERIF_SEED"))
+	if n < 0 {
+		n = -n
+	}
+	return n
 }
 
 func init() {
@@ -339,7 +373,7 @@ func runGate(t *testing.T, cases []map[string]interface{}, ev *vEvents) {
 		if ws := vStrs(c["webui"]); len(ws) == 1 && ws[0] == "u2f" {
 			g = worlds[wk].u2f
 		}
-		out := g.probe(c)
+		out := g.probe(c, i)
 		ev.Emit(map[string]interface{}{"i": i, "ev": "Probe", "case": c, "out": out})
 	})
 	for _, p := range worlds {
